@@ -191,4 +191,7 @@ func (_this *nodeBuilder) NotifyChildContainerFinished(ctx *Context, container r
 }
 
 func (_this *nodeBuilder) BuildArtificiallyEndContainer(ctx *Context) {
+	// The document ended before the node's value arrived: finish the (empty)
+	// node so that Context.ArtificiallyTerminate can unwind the builder stack.
+	ctx.UnstackBuilderAndNotifyChildFinished(_this.node)
 }
